@@ -129,12 +129,6 @@ Definition enc_ok (l : lenc) : Prop :=
   (-128 <= le_line_base l <= 0)%Z /\ (0 < le_line_base l + Z.of_N (le_line_range l))%Z /\
   (le_line_range l <= 255)%N /\ (1 <= le_min_len l)%N /\ (1 <= le_max_ops l)%N.
 
-(* the line_range for which the faithful model is correct: the debug assertions compare
-   `line_base + line_range as i8`, so checked builds need line_range <= 127; the special opcode
-   13 + (line_advance - line_base) must fit a byte, so unchecked builds need line_range <= 243 *)
-Definition range_ok (dbg : bool) (l : lenc) : Prop :=
-  (le_line_range l <= (if dbg then 127 else 243))%N.
-
 Definition i64 (z : Z) : Prop := (-9223372036854775808 <= z < 9223372036854775808)%Z.
 
 Definition regs_ok (p : lparams) (r : regs) : Prop := (0 <= r_op_index r < lp_max_ops p)%Z.
@@ -160,7 +154,7 @@ Proof. intros Hm. unfold regs_ok, op_adv; cbn. apply Z.mod_pos_bound; lia. Qed.
 Lemma line_stage_ok dbg l ladv : enc_ok l -> i64 ladv ->
   exists special use pre,
     adv_line_stage dbg l ladv = Ok (special, use, pre) /\
-    (13 <= special)%N /\ (special - 13 < le_line_range l)%N /\
+    (13 <= special)%N /\ (special - 13 < le_line_range l)%N /\ (special <= 255)%N /\
     (use = false -> special = special_default l) /\
     Forall special_ok pre /\
     (forall ver p r, run p (map (denote ver) pre) r =
@@ -182,10 +176,17 @@ Proof.
     destruct (N.ltb_spec sl (le_line_range l)) as [Hlt|Hge].
     + (* special opcode candidate *)
       rewrite chk_add64_ok by (unfold OPCODE_BASE; lia). unfold OPCODE_BASE. cbn [bind].
-      exists (13 + sl)%N, true, []. repeat split; try lia; auto; try discriminate.
-      intros ver p r. cbn [map run].
-      replace (ladv - (le_line_base l + (Z.of_N (13 + sl) - 13)))%Z with 0%Z by lia.
-      now rewrite line_adv_0.
+      destruct (N.leb_spec (13 + sl) 255) as [Hfit|Hbig].
+      * exists (13 + sl)%N, true, []. repeat split; try lia; auto; try discriminate.
+        intros ver p r. cbn [map run].
+        replace (ladv - (le_line_base l + (Z.of_N (13 + sl) - 13)))%Z with 0%Z by lia.
+        now rewrite line_adv_0.
+      * (* it would not fit a byte: DW_LNS_advance_line *)
+        exists (special_default l), false, [IAdvanceLine ladv]. repeat split; try lia; auto.
+        -- repeat constructor.
+        -- intros ver p r. cbn [map denote run step exec app].
+           replace (ladv - (le_line_base l + (Z.of_N (special_default l) - 13)))%Z with ladv by lia.
+           reflexivity.
     + (* DW_LNS_advance_line *)
       exists (special_default l), false, [IAdvanceLine ladv]. repeat split; try lia; auto.
       * repeat constructor.
@@ -255,11 +256,10 @@ Proof.
         -- intros ver r Hr0. cbn [map denote run step exec app]. now rewrite N.sub_0_r.
 Qed.
 
-Lemma debug_asserts_ok dbg l : enc_ok l -> range_ok dbg l -> adv_debug_asserts dbg l = Ok tt.
+Lemma debug_asserts_ok dbg l : enc_ok l -> adv_debug_asserts dbg l = Ok tt.
 Proof.
-  intros (Hb & Hr & _) Hrange. unfold adv_debug_asserts, range_ok in *. destruct dbg; [|reflexivity].
+  intros (Hb & Hr & _). unfold adv_debug_asserts. destruct dbg; [|reflexivity].
   destruct (Z.leb_spec (le_line_base l) 0) as [_|Hc]; [|lia]. cbn [negb].
-  rewrite to_i8_small by lia. rewrite chk_s8_ok by lia. cbn [bind].
   destruct (Z.leb_spec 0 (le_line_base l + Z.of_N (le_line_range l))) as [_|Hc]; [reflexivity|lia].
 Qed.
 
@@ -267,7 +267,7 @@ Lemma wrap8_small n : (n <= 255)%N -> wrap8 n = n.
 Proof. intros H. unfold wrap8. apply N.mod_small. lia. Qed.
 
 Lemma advance_correct dbg l ladv oadv :
-  enc_ok l -> range_ok dbg l -> i64 ladv ->
+  enc_ok l -> i64 ladv ->
   (oadv * le_line_range l + le_line_range l + 12 < 18446744073709551616)%N ->
   exists insns,
     advance_insns dbg l ladv oadv = Ok insns /\
@@ -277,17 +277,16 @@ Lemma advance_correct dbg l ladv oadv :
       ([op_adv (params_of l) (Z.of_N oadv) (line_adv ladv r)],
        after_row (params_of l) (op_adv (params_of l) (Z.of_N oadv) (line_adv ladv r))).
 Proof.
-  intros Hok Hrange Hl Hov.
+  intros Hok Hl Hov.
   pose proof (special_default_val l Hok) as Hdef.
-  destruct (line_stage_ok dbg l ladv Hok Hl) as (special & use & pre & E1 & H13 & Hsl & Huse & Fpre & Rpre).
+  destruct (line_stage_ok dbg l ladv Hok Hl) as (special & use & pre & E1 & H13 & Hsl & Hsp255 & Huse & Fpre & Rpre).
   destruct (op_stage_ok dbg l special use oadv Hok H13 Hsl Hov)
     as (special' & use' & mid & k & E2 & Hs' & Hk & H255 & Huse' & Fmid & Rmid).
-  unfold advance_insns. rewrite (debug_asserts_ok dbg l Hok Hrange). cbn [bind].
+  unfold advance_insns. rewrite (debug_asserts_ok dbg l Hok). cbn [bind].
   rewrite E1. cbn [bind]. rewrite E2. cbn [bind].
-  assert (Hlr243 : (le_line_range l <= 243)%N) by (unfold range_ok in Hrange; destruct dbg; lia).
   destruct Hok as (Hb & Hr & Hr255 & Hmin & Hmax).
   set (lr := le_line_range l) in *.
-  assert (Hs255 : (special' <= 255)%N) by (apply H255; lia).
+  assert (Hs255 : (special' <= 255)%N) by (apply H255; exact Hsp255).
   assert (Hmaxz : (0 < lp_max_ops (params_of l))%Z) by (cbn; lia).
   assert (Hkl : (k = 0%N) \/ (lr <= k * lr)%N).
   { destruct (N.eq_dec k 0) as [->|Hk0]; [now left|right].
@@ -341,123 +340,38 @@ Proof.
     reflexivity.
 Qed.
 
-(* ------------------------------------------------------------------ exactness of the range: refutations *)
-
-(* checked builds: for every line_range >= 128 the debug assertion of generate_row fails (the sum is
-   negative or overflows i8) — whatever the advances *)
-Lemma advance_debug_panics_above_127 l ladv oadv :
-  enc_ok l -> (128 <= le_line_range l)%N -> advance_insns true l ladv oadv = Panic.
-Proof.
-  intros (Hb & Hr & Hr255 & _) H128. unfold advance_insns, adv_debug_asserts.
-  destruct (Z.leb_spec (le_line_base l) 0) as [_|Hc]; [|lia]. cbn [negb].
-  assert (E8 : to_i8 (le_line_range l) = (Z.of_N (le_line_range l) - 256)%Z).
-  { unfold to_i8, to_signed, wrapN. rewrite pow8. change (2 ^ (8 - 1))%N with 128%N.
-    rewrite N.mod_small by lia. destruct (N.ltb_spec (le_line_range l) 128); [lia|].
-    change (Z.of_N 256) with 256%Z. reflexivity. }
-  rewrite E8. unfold chk_s.
-  destruct (in_signed 8 (le_line_base l + (Z.of_N (le_line_range l) - 256))); cbn [bind]; [|reflexivity].
-  destruct (Z.leb_spec 0 (le_line_base l + (Z.of_N (le_line_range l) - 256))) as [Hc|_]; [lia|reflexivity].
-Qed.
-
-(* unchecked builds: for every line_range >= 244 the line advance 243 + line_base (no address advance)
-   makes the writer emit the byte 0 — not a special opcode at all *)
-Lemma advance_release_wrong_above_243 l :
-  enc_ok l -> (244 <= le_line_range l)%N ->
-  advance_insns false l (243 + le_line_base l) 0 = Ok [ISpecial 0].
-Proof.
-  intros Hok H244. pose proof (special_default_val l Hok) as Hdef.
-  destruct Hok as (Hb & Hr & Hr255 & _).
-  unfold advance_insns, adv_debug_asserts. cbn [bind].
-  unfold adv_line_stage.
-  destruct (Z.eqb_spec (243 + le_line_base l) 0) as [Hc|_]; [lia|]. cbn [negb].
-  assert (Esl : Z.of_N (wrap64 (of_i64 (243 + le_line_base l) + two64 - of_i64 (le_line_base l)))
-                = ((243 + le_line_base l - le_line_base l) mod 18446744073709551616)%Z)
-    by (apply wrapping_sub_i64; lia).
-  set (sl := wrap64 (of_i64 (243 + le_line_base l) + two64 - of_i64 (le_line_base l))) in *.
-  assert (Hsl : sl = 243%N) by lia. rewrite Hsl.
-  destruct (N.ltb_spec 243 (le_line_range l)) as [_|Hc]; [|lia].
-  rewrite chk_add64_ok by (unfold OPCODE_BASE; lia). cbn [bind].
-  unfold adv_op_stage. cbn [N.eqb negb bind]. unfold adv_final.
-  unfold OPCODE_BASE. change (13 + 243)%N with 256%N.
-  destruct (N.eqb_spec 256 (special_default l)) as [Hc|_]; [lia|]. cbn [andb negb bind].
-  reflexivity.
-Qed.
-
-(* concrete witnesses (vm_compute) *)
-Definition lenc_244 : lenc := mkLenc 1 1 true (-1) 244.
-Lemma advance_refuted_244 :
-  enc_ok lenc_244 /\ advance_insns false lenc_244 242 0 = Ok [ISpecial 0] /\ ~ Forall special_ok [ISpecial 0%N].
-Proof.
-  split; [unfold enc_ok, lenc_244; cbn; lia|]. split; [vm_compute; reflexivity|].
-  intros H. inversion H as [|x xs Hx _]. cbn in Hx. lia.
-Qed.
+(* ------------------------------------------------------------------ outside the hypotheses: refutations *)
 
 (* the operation advance outside the writer's arithmetic range: op_advance * line_range overflows u64.
    Debug builds panic; release builds wrap and fold a wrong advance into a special opcode. *)
 Definition lenc_100 : lenc := mkLenc 1 1 true (-1) 100.
 Definition big_oadv : N := 184467440737095517.   (* 2^64 / 100 + 1 *)
 Lemma advance_refuted_mul_overflow :
-  enc_ok lenc_100 /\ range_ok false lenc_100 /\
+  enc_ok lenc_100 /\
   advance_insns true lenc_100 0 big_oadv = Panic /\
   advance_insns false lenc_100 0 big_oadv = Ok [ISpecial 98] /\
   fst (run (params_of lenc_100) (map (denote 4) [ISpecial 98]) (init_regs (params_of lenc_100)))
     <> [op_adv (params_of lenc_100) (Z.of_N big_oadv) (init_regs (params_of lenc_100))].
 Proof.
-  split; [unfold enc_ok, lenc_100; cbn; lia|]. split; [unfold range_ok, lenc_100; cbn; lia|].
+  split; [unfold enc_ok, lenc_100; cbn; lia|].
   split; [vm_compute; reflexivity|]. split; [vm_compute; reflexivity|].
   vm_compute. intros H. discriminate H.
 Qed.
 
-(* ------------------------------------------------------------------ LineProgram::new (F9) *)
+(* ------------------------------------------------------------------ LineProgram::new *)
 
-(* the documented precondition is `line_base <= 0 < line_base + line_range`; the code compares
-   `line_base + line_range as i8`, so checked builds reject EVERY line_range >= 128 *)
-Lemma new_debug_panics_above_127 e l wd sd sf info :
-  enc_ok l -> (128 <= le_line_range l)%N -> lp_new true e l wd sd sf info = Panic.
-Proof.
-  intros (Hb & Hr & Hr255 & _) H128. unfold lp_new.
-  destruct (Z.leb_spec (le_line_base l) 0) as [_|Hc]; [|lia]. cbn [negb].
-  assert (E8 : to_i8 (le_line_range l) = (Z.of_N (le_line_range l) - 256)%Z).
-  { unfold to_i8, to_signed, wrapN. rewrite pow8. change (2 ^ (8 - 1))%N with 128%N.
-    rewrite N.mod_small by lia. destruct (N.ltb_spec (le_line_range l) 128); [lia|].
-    change (Z.of_N 256) with 256%Z. reflexivity. }
-  rewrite E8. unfold chk_s.
-  destruct (in_signed 8 (le_line_base l + (Z.of_N (le_line_range l) - 256))); cbn [bind]; [|reflexivity].
-  destruct (Z.ltb_spec 0 (le_line_base l + (Z.of_N (le_line_range l) - 256))) as [Hc|_]; [lia|reflexivity].
-Qed.
+(* the assertions of `new` pass exactly under the documented precondition (after fix eea5f40 of F9) *)
+Lemma new_asserts_pass l : enc_ok l ->
+  (le_line_base l <=? 0)%Z = true /\ (0 <? le_line_base l + Z.of_N (le_line_range l))%Z = true.
+Proof. intros (Hb & Hr & _). split; [apply Z.leb_le | apply Z.ltb_lt]; lia. Qed.
 
-(* release builds: the wrapped sum is positive exactly when line_base + line_range < 128 *)
-Lemma new_release_assert_above_127 e l wd sd sf info :
-  enc_ok l -> (128 <= le_line_range l)%N -> (128 <= le_line_base l + Z.of_N (le_line_range l))%Z ->
-  lp_new false e l wd sd sf info = Panic.
+Lemma new_panics_outside_precondition dbg e l wd sd sf info :
+  (0 < le_line_base l \/ le_line_base l + Z.of_N (le_line_range l) <= 0)%Z ->
+  lp_new dbg e l wd sd sf info = Panic.
 Proof.
-  intros (Hb & Hr & Hr255 & _) H128 Hsum. unfold lp_new.
-  destruct (Z.leb_spec (le_line_base l) 0) as [_|Hc]; [|lia]. cbn [negb].
-  assert (E8 : to_i8 (le_line_range l) = (Z.of_N (le_line_range l) - 256)%Z).
-  { unfold to_i8, to_signed, wrapN. rewrite pow8. change (2 ^ (8 - 1))%N with 128%N.
-    rewrite N.mod_small by lia. destruct (N.ltb_spec (le_line_range l) 128); [lia|].
-    change (Z.of_N 256) with 256%Z. reflexivity. }
-  rewrite E8. rewrite chk_s8_ok by lia. cbn [bind].
-  destruct (Z.ltb_spec 0 (le_line_base l + (Z.of_N (le_line_range l) - 256))) as [Hc|_]; [lia|reflexivity].
-Qed.
-
-(* the assertions of `new` pass for every documented encoding with line_range <= 127 *)
-Lemma new_asserts_pass dbg l :
-  enc_ok l -> (le_line_range l <= 127)%N ->
-  (le_line_base l <=? 0)%Z = true /\
-  exists s, chk_s 8 dbg (le_line_base l + to_i8 (le_line_range l)) = Ok s /\ (0 <? s)%Z = true.
-Proof.
-  intros (Hb & Hr & _) H127. split; [apply Z.leb_le; lia|].
-  rewrite to_i8_small by lia. exists (le_line_base l + Z.of_N (le_line_range l))%Z.
-  split; [apply chk_s8_ok; lia | apply Z.ltb_lt; lia].
-Qed.
-
-Definition lenc_f9 : lenc := mkLenc 1 1 true (-3) 200.
-Lemma new_refuted_F9 : enc_ok lenc_f9 /\
-  forall dbg e wd sd sf info, lp_new dbg e lenc_f9 wd sd sf info = Panic.
-Proof.
-  split; [unfold enc_ok, lenc_f9; cbn; lia|].
-  intros [] e wd sd sf info; reflexivity.
+  intros H. unfold lp_new.
+  destruct (Z.leb_spec (le_line_base l) 0) as [Hle|Hgt]; cbn [negb]; [|reflexivity].
+  destruct (Z.ltb_spec 0 (le_line_base l + Z.of_N (le_line_range l))) as [Hlt|Hge]; cbn [negb]; [lia|reflexivity].
 Qed.
 
 (* ------------------------------------------------------------------ row_fields *)
